@@ -12,6 +12,7 @@ import Frrs.Proofs.Migrate
 import Frrs.Oracle
 import Frrs.Proofs.Bytes
 import Frrs.Proofs.Codec
+import Frrs.Proofs.OldNames
 namespace Frrs.C03
 open Frrs
 set_option linter.unusedSimpArgs false
@@ -152,5 +153,23 @@ theorem migration_creates_faithful_copies (refs : List (Bytes × Bytes)) (c : By
 example : (migratePlan [(b!"refs/heads/main", b!"1"), (b!"refs/remotes/origin/HEAD", b!"1"), (b!"refs/remotes/origin/main", b!"1"),
     (b!"refs/remotes/origin/topic", b!"2"), (b!"refs/remotes/origin-old/legacy", b!"3")]).creates = [(b!"refs/heads/topic", b!"2")] := by
   decide +kernel
+
+
+/-! ### the old name is gone (the deletion list of finalize(), `Finalize.deletedOldNames`) -/
+
+/-- **The old name is gone**: a recorded rename `old → new` that changed the name, whose old name existed before the run
+    and is not itself the new name of another rename, is on the deletion list of the update-ref batch — whatever other
+    refs exist (names that merely *start* with the old name included) and in whatever order they are listed. -/
+theorem old_name_is_deleted (renames : List (Bytes × Bytes)) (refsBefore : List Bytes) (old new_ : Bytes)
+    (hmem : (old, new_) ∈ renames) (hne : old ≠ new_) (hchain : ∀ p ∈ renames, p.2 ≠ old) (hex : old ∈ refsBefore) :
+    old ∈ deletedOldNames renames refsBefore :=
+  OldNames.renamed_old_name_is_deleted renames refsBefore old new_ hmem hne hchain hex
+
+/-- **and nothing else is**: every deleted name is the old side of a recorded rename that changed the name, and it
+    existed before the run — no ref is lost to the clean-up of old names -/
+theorem only_renamed_names_are_deleted (renames : List (Bytes × Bytes)) (refsBefore : List Bytes) (old : Bytes)
+    (h : old ∈ deletedOldNames renames refsBefore) :
+    (∃ new_, (old, new_) ∈ renames ∧ old ≠ new_) ∧ old ∈ refsBefore :=
+  OldNames.only_renamed_existing_names_are_deleted renames refsBefore old h
 
 end Frrs.C03
